@@ -1,5 +1,6 @@
 import PdshVerif.Base.Hex
 import PdshVerif.Hostlist.Uniq
+import PdshVerif.Hostlist.EditSort
 import PdshVerif.Hostlist.EditSpec
 import PdshVerif.Hostlist.Probed
 import Driver.Util
@@ -118,6 +119,10 @@ def stepEdit (st : St) (line : String) : St × String :=
     match uniqE cfg e with
     | some e' => (.live e', s!"ok {e'.nhosts} {e'.nranges}")
     | none => ub "assert_hostrange_cmp_in_hostrange_join"
+  | .live e, ["sort"] =>
+    match sortE cfg e with
+    | .ok e' => (.live e', s!"ok {e'.nhosts} {e'.nranges}")
+    | .error w => ub w
   | .live e, ["it_new"] =>
     match freeSlot e with
     | some k => (.live (itNew e k), s!"{k}")
